@@ -242,6 +242,7 @@ func runJob(j *job, workers []*worker, cfg *runConfig) {
 	}
 	j.rng = uint64(cfg.seed)*2654435761 + 88172645463325252
 	deadline := time.Now().Add(cfg.harnessBudget)
+	j.deadline = deadline.Add(cfg.harnessBudget / 4)
 	var wg sync.WaitGroup
 	for _, w := range workers {
 		wg.Add(1)
